@@ -127,6 +127,20 @@ def _rows_single_transaction():
             raise _err("_create_or_update_state commits / opens a session although the caller holds the transaction")
         if len(_calls(loops[0], "_create_or_update_state")) != 1:
             raise _err("update_states_in_database: expected one upsert per node")
+        # "one session, one commit" is one transaction only if the engine and the session factory are the default ones:
+        # an autocommit isolation level (or execution option) makes every flushed statement a transaction of its own
+        src = ast.unparse(mod)
+        if "execution_options" in src or "AUTOCOMMIT" in src.upper():
+            raise _err("database_utils.py configures execution options / an autocommit isolation level")
+        engines = [c for c in _calls(mod, "create_engine")]
+        if len(engines) != 1 or engines[0].keywords or len(engines[0].args) != 1:
+            raise _err("create_database: create_engine is not called as create_engine(url) (isolation level / pool options?)")
+        makers = [c for c in _calls(mod, "sessionmaker")]
+        if len(makers) != 1 or makers[0].keywords or makers[0].args:
+            raise _err("DatabaseSession is not a plain sessionmaker()")
+        confs = [c for c in _calls(mod, "configure")]
+        if any(kw.arg != "bind" for c in confs for kw in c.keywords):
+            raise _err("DatabaseSession.configure sets options other than bind")
         return True
     if not withs and _rows_one_commit_each():
         return False
